@@ -38,6 +38,8 @@ CONSTANTS
   MaxSeq,        \* sequences of 0..MaxSeq elements
   VecSystems,    \* subset of {"cart", "cyl", "sph"}
   VecValues,     \* spellings of vector components (finite or zero)
+  VecWays,       \* how a vector is built: subset of {"infer", "explicit", "base", "baseexplicit"} - the dimension
+                 \* inferred from the components or passed as dimension=, directly or through from_base_vector
   TupleDecls,    \* BOOLEAN: also declare sequences of two elements element-wise (a pair of dimensions)
   MaxParams,     \* 1..MaxParams guarded parameters per call
   CallStyles,    \* how the arguments are passed: subset of AllStyles
@@ -53,6 +55,8 @@ vars == <<call, pc, todo, out>>
 -----------------------------------------------------------------------------
 (* Values: only the class matters to the gate.                               *)
 ValClass == [ sone |-> "fin", sf25 |-> "fin",          \* SymPy Integer / Float spellings of one and 2.5
+              \* one half and zero as numbers of other types: fractions.Fraction, decimal.Decimal, mpmath.mpf
+              frac |-> "fin", dec |-> "fin", mpf |-> "fin", fraczero |-> "zero", deczero |-> "zero",
               one |-> "fin", three |-> "fin", neg |-> "fin", f25 |-> "fin", big |-> "fin", tiny |-> "fin",
               cplx |-> "fin",
               \* non-zero finite values outside the range of binary doubles (10^400, 10^-400 as exact numbers,
@@ -123,8 +127,9 @@ Scalars == {Qty(v, p, d) : v \in Values, p \in Prefixes, d \in ActDims} \cup {Nu
 
 \* a vector in a non-Cartesian system starts with a non-zero radial component
 IsAngleComp(s, i) == (s = "cyl" /\ i = 2) \/ (s = "sph" /\ i \in {2, 3})
-Vecs == {[k |-> "vec", sys |-> s, d |-> d, vals |-> vs, cs |-> [i \in DOMAIN vs |-> ValClass[vs[i]]], pre |-> p, mix |-> m] :
-           s \in VecSystems, d \in ActDims, p \in Prefixes, m \in 0..3,
+Vecs == {[k |-> "vec", sys |-> s, d |-> d, vals |-> vs, cs |-> [i \in DOMAIN vs |-> ValClass[vs[i]]], pre |-> p, mix |-> m,
+          via |-> w] :
+           s \in VecSystems, d \in ActDims, p \in Prefixes, m \in 0..3, w \in VecWays,
            vs \in UNION {[1..n -> VecValues] : n \in 2..3}}
 \* a mixed component is a finite non-angle component next to another finite non-angle component
 GoodVec(v) ==
@@ -262,6 +267,14 @@ TypeErrorIffBareNonzeroNumber == AtStart =>
       /\ ("pass" \in V) = (IsAnyC(a.c) \/ Equiv(a.d, dd))
       /\ V # {}
 
+\* the verdict of a vector does not depend on the way it was built; a vector with a component of another
+\* dimension never passes, whichever way it was built and whatever is declared
+VectorsHoweverBuilt == AtStart =>
+  \A i \in 1..call.n : call.args[i].k = "vec" =>
+    /\ \A w \in {"infer", "explicit", "base", "baseexplicit"} :
+          Verdict([call.args[i] EXCEPT !.via = w], call.decls[i]) = Verdict(call.args[i], call.decls[i])
+    /\ (call.args[i].mix # 0 => "pass" \notin Verdict(call.args[i], call.decls[i]))
+
 \* adding or removing an angle factor never changes the verdict of a quantity
 AngleIsErased == AtStart =>
   \A i \in 1..call.n : call.args[i].k = "qty" =>
@@ -273,7 +286,7 @@ AngleIsErased == AtStart =>
 DimSeq(d) == <<d["L"], d["M"], d["T"], d["I"], d["K"], d["N"], d["J"], d["A"]>>
 RECURSIVE ArgJ(_)
 ArgJ(a) == CASE a.k = "seq" -> [k |-> "seq", items |-> [i \in DOMAIN a.items |-> ArgJ(a.items[i])]]
-             [] a.k = "vec" -> [k |-> "vec", sys |-> a.sys, d |-> DimSeq(a.d), vals |-> a.vals, pre |-> a.pre, mix |-> a.mix]
+             [] a.k = "vec" -> [k |-> "vec", sys |-> a.sys, d |-> DimSeq(a.d), vals |-> a.vals, pre |-> a.pre, mix |-> a.mix, via |-> a.via]
              [] a.k = "none" -> [k |-> "none"]
              [] OTHER -> [k |-> a.k, val |-> a.val, pre |-> a.pre, d |-> DimSeq(a.d)]
 DeclJ(x) == CASE x.k = "one" -> [k |-> "one", d |-> DimSeq(x.d)]
